@@ -87,10 +87,29 @@ func phaseAt(phases []connPhase, seq int) string {
 // checkConnect verifies the connection set-up clauses over the history so far.
 func (h *H) checkConnect(cfg *mqtt.Config) {
 	phases, established := h.connPhases()
-	everEstablished := -1 // event of the first establishment
-	for _, seq := range established {
-		if everEstablished < 0 || seq < everEstablished {
-			everEstablished = seq
+	// "Established" for the clean-session rule: the client consumed an accepting
+	// CONNACK (the broker's session exists from then on), whether or not the
+	// resend which follows got through.
+	_ = established
+	everEstablished := -1
+	{
+		read := map[int]int{}
+		accepting := map[int]bool{}
+		first := map[int]bool{}
+		for _, e := range h.Events() {
+			switch e.Kind {
+			case sim.EvBrokerSend:
+				if !first[e.Conn] {
+					first[e.Conn] = true
+					accepting[e.Conn] = len(e.Data) >= 4 && e.Data[0] == 0x20 && e.Data[1] == 2 && e.Data[3] == 0 && e.Data[2] <= 1
+				}
+			case sim.EvRead:
+				before := read[e.Conn]
+				read[e.Conn] += len(e.Data)
+				if before < 4 && read[e.Conn] >= 4 && accepting[e.Conn] && everEstablished < 0 {
+					everEstablished = e.Seq
+				}
+			}
 		}
 	}
 	infos := h.connInfos()
@@ -248,7 +267,10 @@ func TestC18ConnectSetup(t *testing.T) {
 			if c := h.Current(); c != nil && c.State.Accepted {
 				rt.Skip("online")
 			}
-			kind := rapid.SampledFrom([]string{"ok", "ok", "ok", "dial-error", "refuse", "raw", "eof", "write-fault", "read-fault", "hold"}).Draw(rt, "outcome")
+			kind := rapid.SampledFrom([]string{"ok", "ok", "ok", "dial-error", "refuse", "raw", "eof", "write-fault", "read-fault", "hold", "resend-fault", "resend-fault"}).Draw(rt, "outcome")
+			if kind == "resend-fault" && lenConnect < 0 {
+				kind = "ok"
+			}
 			var o sim.DialOutcome
 			wantRefused := false
 			wantFail := true
@@ -305,6 +327,18 @@ func TestC18ConnectSetup(t *testing.T) {
 			case "hold":
 				o.Connack = &sim.ConnackPolicy{Kind: sim.ConnackHold}
 				wantFail = false
+			case "resend-fault":
+				// dial and handshake succeed; the connection dies while the
+				// pending transfers are retransmitted (if there are any)
+				off := lenConnect + rapid.IntRange(0, 40).Draw(rt, "off")
+				h.WithLock(func() {
+					h.NextConnOpts = func(c *sim.Conn) {
+						c.ArmWriteLocked(sim.WFault{Off: off, Kind: sim.WReset})
+						h.NextConnOpts = nil
+					}
+				})
+				desc = fmt.Sprintf("resend-fault off=connect+%d", off-lenConnect)
+				wantFail = false // decided by the outcome below
 			}
 			phasesBefore, _ := h.connPhases()
 			pre := phaseAt(phasesBefore, h.Seq())
@@ -388,6 +422,21 @@ func TestC18ConnectSetup(t *testing.T) {
 				if cs := h.AllConns(); len(cs) != 0 {
 					if ps, _, _ := refmqtt.DecodeAll(cs[0].OutCopy()); len(ps) != 0 {
 						lenConnect = len(ps[0].Raw)
+					}
+				}
+			}
+			if kind == "resend-fault" {
+				// the attempt failed iff ReadSlices returned an error from it
+				if !h.App.InCall() && h.App.NResults() == before+1 {
+					if r := h.App.Result(before); r.Err != nil && !r.Big {
+						// … and connect did not get through on the new connection
+						_, est := h.connPhases()
+						cs := h.AllConns()
+						if len(cs) > nconns {
+							if _, ok := est[cs[len(cs)-1].N]; !ok {
+								wantFail = true
+							}
+						}
 					}
 				}
 			}
